@@ -211,6 +211,20 @@ Theorem C07_refinement : forall b d1 d2 unrooted f1 f2 o0,
             c07_holds (mkCase (to_text b) unrooted (to_text d1) f1 (to_text d2) f2 o) = true.
 Proof. exact model_on_texts_satisfies_spec_any_base. Qed.
 Print Assumptions C07_refinement.
+(* ... and the base text need not be in normal form ("http://a:80/x", ":0", an
+   empty port ...): any text the model of URL() parses into a well-formed base *)
+Theorem C07_refinement_any_base_text : forall bt b d1 d2 unrooted f1 f2 o0,
+  url_of_text bt = Some b -> wf_base b -> dest_text_ok d1 -> dest_text_ok d2 ->
+  exists o, c07_model (mkCase bt unrooted (to_text d1) f1 (to_text d2) f2 o0) = Some o /\
+            c07_holds (mkCase bt unrooted (to_text d1) f1 (to_text d2) f2 o) = true.
+Proof. exact model_on_any_base_text. Qed.
+Print Assumptions C07_refinement_any_base_text.
+Example C07_refinement_any_base_text_ex :
+  url_of_text (codes "http://a:80/b/../c") <> None /\
+  wf_base (or_dummy (url_of_text (codes "http://a:80/b/../c"))) /\
+  to_text (or_dummy (url_of_text (codes "http://a:80/b/../c"))) = codes "http://a/b/../c".
+Proof. exact ex_default_port. Qed.
+
 Example C07_refinement_ex :
   wf_base_text ex_base /\ dest_text_ok ex_ref1 /\ dest_text_ok ex_ref2 /\ dest_text_ok ex_abs /\
   to_text ex_base = ex_base_t /\ to_text ex_ref1 = ex_ref1_t /\ to_text ex_ref2 = ex_ref2_t.
